@@ -546,6 +546,8 @@ impl State {
     }
 
     fn apply_load_coherence(&mut self, threads: &mut thread::Set, index: usize) {
+        let prev = self.stores[index].modification_order;
+
         for i in 0..self.stores.len() {
             // Skip if the is current.
             if index == i {
@@ -562,6 +564,19 @@ impl State {
             if self.stores[i].happens_before < threads.active().causality {
                 let mo = self.stores[i].modification_order;
                 self.stores[index].modification_order.join(&mo);
+            }
+        }
+
+        // The store that is read has just been ordered after other stores.
+        // Every store that was already ordered after it has to stay ordered
+        // after it, i.e. it is ordered after those other stores as well.
+        let curr = self.stores[index].modification_order;
+
+        if curr != prev {
+            for i in 0..self.stores.len() {
+                if i != index && prev < self.stores[i].modification_order {
+                    self.stores[i].modification_order.join(&curr);
+                }
             }
         }
     }
